@@ -153,11 +153,11 @@ class _FakeThread(object):
 _FIXTURES = {}   # (kind, text) -> [(model name, record)]
 
 
-def _fixture(kind, text, project_id, is_admin):
+def _fixture(kind, text, project_id, is_admin, namespace=''):
     """Definitions are created once by the real services (real parser and
     validation, ~1 s) in a scratch database; every path then starts from a
     copy of the resulting rows."""
-    key = (kind, text, project_id)
+    key = (kind, text, project_id, namespace)
     if key in _FIXTURES:
         return _FIXTURES[key]
     from mistral.db.v2.sqlalchemy import models
@@ -167,9 +167,9 @@ def _fixture(kind, text, project_id, is_admin):
     with minidb.installed(tmp, per_thread_tx_lock=False), \
             env.auth_ctx(project_id, is_admin):
         if kind == 'wb':
-            wb_service.create_workbook_v2(text)
+            wb_service.create_workbook_v2(text, namespace=namespace)
         else:
-            wf_service.create_workflows(text)
+            wf_service.create_workflows(text, namespace=namespace)
     out = []
     for name in ('Workbook', 'WorkflowDefinition', 'ActionDefinition'):
         for rec in tmp.rows(getattr(models, name)):
@@ -222,7 +222,11 @@ class World(object):
         for text in self.workbooks:
             fixtures += _fixture('wb', text, self.project_id, self.is_admin)
         for text in self.definitions:
-            fixtures += _fixture('wf', text, self.project_id, self.is_admin)
+            ns = ''
+            if isinstance(text, tuple):      # (text, namespace)
+                text, ns = text
+            fixtures += _fixture('wf', text, self.project_id, self.is_admin,
+                                 ns)
         st = contextlib.ExitStack()
         self._stack = st
         st.enter_context(minidb.installed(
@@ -405,9 +409,9 @@ class World(object):
                         ('on_action_complete', (p['id'], result), {})))
 
     # -- conveniences --------------------------------------------------------
-    def start(self, wf, wf_input=None, **params):
-        r = self.call('start_workflow', wf, '', None, wf_input or {}, '',
-                      **params)
+    def start(self, wf, wf_input=None, wf_namespace='', **params):
+        r = self.call('start_workflow', wf, wf_namespace, None,
+                      wf_input or {}, '', **params)
         return r.id if r is not None else None
 
     def run(self, chooser=None, result_of=None, max_events=200,
